@@ -17,6 +17,8 @@ pub const ENUM_SIZES_THOROUGH: [usize; 40] = [
     63, 64, 70,
 ];
 pub const BURSTS: [u32; 3] = [1, 2, 50];
+/// placed `Interrupted` answers of `flush`: this many in a row
+pub const FLUSH_INTR_RUNS: [u32; 5] = [1, 2, 3, 4, 7];
 
 pub fn enum_sizes(tier: Tier) -> &'static [usize] {
     match tier {
@@ -28,7 +30,7 @@ pub fn enum_sizes(tier: Tier) -> &'static [usize] {
 /// Number of placed-fault kinds per link (see `placed_fault`).
 pub fn placed_kinds(kind: LinkKind) -> u32 {
     match kind {
-        LinkKind::Serial => 4,
+        LinkKind::Serial => 5,
         LinkKind::Usart => 1,
         LinkKind::Can => 2,
     }
@@ -39,7 +41,8 @@ fn placed_fault(kind: LinkKind, fk: u32, arg: u32) -> TxFault {
         (LinkKind::Serial, 0) => TxFault::HardError((arg % 3) as u8),
         (LinkKind::Serial, 1) => TxFault::Short(1 + arg),
         (LinkKind::Serial, 2) => TxFault::Interrupted,
-        (LinkKind::Serial, _) => TxFault::FlushError((arg % 3) as u8),
+        (LinkKind::Serial, 3) => TxFault::FlushError((arg % 3) as u8),
+        (LinkKind::Serial, _) => TxFault::FlushInterrupted(FLUSH_INTR_RUNS[(arg % 5) as usize]),
         (LinkKind::Usart, _) => TxFault::WouldBlock(BURSTS[(arg % 3) as usize]),
         (LinkKind::Can, 0) => TxFault::WouldBlock(BURSTS[(arg % 3) as usize]),
         (LinkKind::Can, _) => TxFault::Displaced,
@@ -129,6 +132,8 @@ pub fn run(sim: &Sim, prop: &str, tier: Tier) -> Outcome {
                 p.interrupted = sim.pick(&[0u32, 0, 10, 40]);
                 p.hard = sim.pick(&[0u32, 0, 1, 5]);
                 p.flush_err = sim.pick(&[0u32, 0, 20]);
+                p.flush_intr = sim.pick(&[0u32, 0, 50, 90]);
+                p.flush_intr_cap = sim.pick(&[1u32, 3, 8]);
             }
         }
         // rarely: one very long would-block burst before one early unit ("any number of times")
